@@ -337,6 +337,9 @@ theorem keeps_pollTask (P : Params) (e : Entry) (s : St) :
         exact keeps_trans h2 (keeps_mono (fun _ => Or.inr h2.2.1.symm) (keeps_runProg _ _ _ _ _ _ _))
 
 /-- what is left after a `pop` satisfies `Inv`, and the popped entry became runnable now -/
+theorem core_noteSilent (b r : St) : core (noteSilent b r) = core r := by
+  rcases noteSilent_eq b r with h | h <;> rw [h] <;> rfl
+
 theorem inv_pop (P : Params) (q : Kind) (s s' : St) (e : Entry) (h : pop P q s = some (e, s')) (hi : Inv s) :
     Inv s' ∧ (e.origin = .foreign ∨ e.ready = s'.now) := by
   obtain ⟨h1, h2, h3, h4, h5, h6⟩ := hi
@@ -360,9 +363,10 @@ theorem step_inv (P : Params) (q : Kind) (s : St) :
     have hk := keeps_pollTask P e s'
     have hn : s'.now = s.now ∧ s'.phase = s.phase := by
       rcases pop_some P q s s' e hq with ⟨r, _, rfl⟩ | ⟨r, _, rfl⟩ | ⟨r, _, rfl⟩ <;> exact ⟨rfl, rfl⟩
-    refine ⟨fun hi => ?_, hk.2.1.trans hn.1, hk.2.2.2.1.trans hn.2⟩
+    have hc := core_inj (core_noteSilent s' (pollTask P e s'))
+    refine ⟨fun hi => ?_, (hc.1.trans hk.2.1).trans hn.1, (hc.2.2.2.2.2.2.2.1.trans hk.2.2.2.1).trans hn.2⟩
     have := inv_pop P q s s' e hq hi
-    exact hk.1 this.2 this.1
+    exact inv_of_core _ _ (core_noteSilent s' (pollTask P e s')) (hk.1 this.2 this.1)
 
 /-- one iteration of the runtime loop never shrinks the local queue and keeps the flag covering it -/
 theorem step_rt_lq (P : Params) (s : St) :
@@ -384,11 +388,16 @@ theorem step_rt_lq (P : Params) (s : St) :
         simp only at hq
         split at hq <;> split at hq <;> simp at hq <;>
           (have := congrArg St.lq hq.2; simp at this; rw [hl] at this; simp at this)
-    refine ⟨by rw [← hn.1]; exact hk.2.2.1, fun hp hf => ?_⟩
-    refine hk.2.2.2.2 (Or.inl (by rw [hn.2.1]; exact hp)) ?_
-    unfold FL at hf ⊢
-    rw [hn.1, hn.2.2]
-    exact hf
+    have hc := core_inj (core_noteSilent s' (pollTask P e s'))
+    refine ⟨by rw [← hn.1, hc.2.2.2.1]; exact hk.2.2.1, fun hp hf => ?_⟩
+    have hfl : FL (pollTask P e s') := by
+      refine hk.2.2.2.2 (Or.inl (by rw [hn.2.1]; exact hp)) ?_
+      unfold FL at hf ⊢
+      rw [hn.1, hn.2.2]
+      exact hf
+    unfold FL at hfl ⊢
+    rw [hc.2.2.2.1, hc.2.2.2.2.2.2.2.2]
+    exact hfl
 
 theorem runQ_inv (P : Params) (q : Kind) :
     ∀ (b : Nat) (s : St),
